@@ -333,6 +333,74 @@ func scripts() []scriptCase {
 		{"default-string-on-int-column", []string{
 			"CREATE TABLE dsi (id INTEGER PRIMARY KEY, a INT DEFAULT 'n/a', c REAL DEFAULT 'none', d BOOLEAN DEFAULT 'yes', e DECIMAL(10,2) NOT NULL DEFAULT 'n. a.')",
 		}},
+		// string literals with backslashes (SQL has no backslash escapes): at the end, in the middle, doubled
+		{"backslash-string-check", []string{
+			`CREATE TABLE bs1 (id INTEGER PRIMARY KEY, dir TEXT NOT NULL CHECK (dir NOT LIKE '%\'), sep TEXT DEFAULT '/' CONSTRAINT bs1_sep CHECK (sep IN ('/', '\')), mid TEXT CHECK (mid <> 'a\b' AND mid <> '\\'), note TEXT DEFAULT 'x', "q" TEXT)`,
+		}},
+		{"backslash-string-generated", []string{
+			`CREATE TABLE bs2 (id INTEGER PRIMARY KEY, p TEXT NOT NULL, win TEXT AS (replace(p, '/', '\')) STORED, tail TEXT GENERATED ALWAYS AS (p || '\') VIRTUAL, q TEXT DEFAULT 'it''s', "r" TEXT)`,
+		}},
+		{"backslash-string-default-predicate", []string{
+			`CREATE TABLE bs3 (id INTEGER PRIMARY KEY, a TEXT DEFAULT '\', b TEXT DEFAULT 'a\b', c TEXT DEFAULT '\\', d TEXT DEFAULT 'end\', e TEXT DEFAULT ('x' || '\'), f TEXT DEFAULT 'y')`,
+			`CREATE INDEX bs3_i ON bs3 (a) WHERE b <> '\' AND c <> 'c\\d'`,
+			`CREATE INDEX bs3_x ON bs3 (replace(a, '\', '/'), b DESC) WHERE a NOT LIKE '%\'`,
+		}},
+		// "$" and "%" (plain) in expressions that the HCL export writes inside sql("…") or strings
+		{"dollar-percent-expression-default", []string{
+			`CREATE TABLE dp1 (id INTEGER PRIMARY KEY, a TEXT DEFAULT ('$' || '0.00'), b TEXT DEFAULT (printf('$%d', 1)), c TEXT DEFAULT ('100%' || '$$'), d TEXT DEFAULT '$', e TEXT DEFAULT '5%', f TEXT DEFAULT '$$')`,
+		}},
+		{"dollar-percent-check-predicate", []string{
+			`CREATE TABLE dp2 (id INTEGER PRIMARY KEY, price TEXT CHECK (price LIKE '$%'), pct TEXT CONSTRAINT dp2_pct CHECK (pct NOT LIKE '%$%' AND pct <> '100%'), g TEXT AS ('$' || price) STORED)`,
+			`CREATE INDEX dp2_i ON dp2 (price) WHERE price <> '$0' AND pct LIKE '5%'`,
+			`CREATE INDEX dp2_x ON dp2 (('$' || pct)) WHERE pct <> '$$'`,
+		}},
+		// HCL template sequences "${" and "%{" inside SQL text
+		{"template-sequence-expression-default", []string{
+			`CREATE TABLE tp1 (id INTEGER PRIMARY KEY, a TEXT DEFAULT ('${x}' || 'y'), b TEXT DEFAULT ('%{y}' || 'z'))`,
+		}},
+		{"template-sequence-literal-default", []string{
+			`CREATE TABLE tp3 (id INTEGER PRIMARY KEY, a TEXT DEFAULT '${literal}', b TEXT DEFAULT '%{literal}', c TEXT DEFAULT '$${x}')`,
+		}},
+		{"template-sequence-check-predicate", []string{
+			`CREATE TABLE tp2 (id INTEGER PRIMARY KEY, t TEXT CHECK (t <> '${a}' AND t <> '%{b}'), g TEXT AS (t || '${g}') VIRTUAL)`,
+			`CREATE INDEX tp2_i ON tp2 (t) WHERE t <> '${w}'`,
+		}},
+		// identifiers that contain the keywords the inspector searches the stored SQL text for
+		{"ident-contains-where", []string{
+			`CREATE TABLE elsewhere (id INTEGER PRIMARY KEY, whereabouts TEXT, somewhere_id INTEGER, v TEXT)`,
+			`CREATE INDEX idx_nowhere ON elsewhere (v) WHERE v IS NOT NULL`,
+			`CREATE INDEX elsewhere_w ON elsewhere (whereabouts, somewhere_id DESC) WHERE somewhere_id > 0`,
+			`CREATE UNIQUE INDEX ew_x ON elsewhere (lower(whereabouts)) WHERE whereabouts <> 'WHERE'`,
+		}},
+		{"ident-contains-upper-WHERE", []string{
+			`CREATE TABLE uw (id INTEGER PRIMARY KEY, WHEREABOUTS TEXT, v TEXT)`,
+			`CREATE INDEX uw_i ON uw (WHEREABOUTS) WHERE v IS NOT NULL`,
+		}},
+		{"ident-contains-check", []string{
+			`CREATE TABLE checks (id INTEGER PRIMARY KEY, checksum CHAR(32), check_in TEXT, recheck INTEGER, CONSTRAINT checkpoint_ck CHECK (recheck >= 0), CONSTRAINT no_check CHECK (check_in <> ''))`,
+			`CREATE INDEX checks_checksum ON checks (checksum, recheck DESC) WHERE check_in IS NOT NULL`,
+		}},
+		{"type-name-contains-check", []string{
+			`CREATE TABLE tcheck (id INTEGER PRIMARY KEY, v PRECHECK(3))`,
+		}},
+		{"ident-contains-autoincrement", []string{
+			`CREATE TABLE autoincrement_log (id INTEGER PRIMARY KEY, autoincrement_hint TEXT, "AUTOINCREMENT" INTEGER)`,
+			`CREATE TABLE ai_real (autoincrement_id INTEGER PRIMARY KEY AUTOINCREMENT, v TEXT)`,
+		}},
+		{"check-mentions-autoincrement-column", []string{
+			`CREATE TABLE ai2 (id INTEGER PRIMARY KEY CHECK (id <> autoincrement_base), autoincrement_base INTEGER)`,
+		}},
+		{"ident-contains-references-constraint", []string{
+			`CREATE TABLE constraints (constraint_id INTEGER NOT NULL PRIMARY KEY, references_count INTEGER)`,
+			`CREATE TABLE foreign_keys (id INTEGER NOT NULL PRIMARY KEY, constraint_id INTEGER CONSTRAINT fk_constraint REFERENCES constraints (constraint_id), references_id INTEGER, CONSTRAINT fk_references FOREIGN KEY (references_id) REFERENCES constraints (constraint_id) ON DELETE CASCADE, CONSTRAINT ck_references CHECK (references_id > 0))`,
+		}},
+		{"ident-contains-generated-as", []string{
+			`CREATE TABLE gen_as (id INTEGER PRIMARY KEY, generated_at TEXT, as_of TEXT, has INTEGER AS (id + 1) STORED, alias TEXT GENERATED ALWAYS AS (as_of || 'x') VIRTUAL, a INTEGER AS (id * 2))`,
+		}},
+		{"ident-contains-primary-unique", []string{
+			`CREATE TABLE primary_unique (primary_id INTEGER NOT NULL, unique_code TEXT, key_part TEXT, PRIMARY KEY (primary_id), UNIQUE (unique_code))`,
+			`CREATE UNIQUE INDEX unique_idx ON primary_unique (key_part DESC, unique_code)`,
+		}},
 		{"rename-rewritten", []string{
 			"CREATE TABLE rn0 (id INTEGER PRIMARY KEY AUTOINCREMENT, v text CONSTRAINT rn_ck CHECK (v <> ''), p integer CONSTRAINT rn_fk REFERENCES rn0 (id))",
 			"ALTER TABLE rn0 RENAME TO rn",
